@@ -577,6 +577,28 @@ func cryptoPolicyMain(rc *RunCtx) {
 		p.refSelect = uint32(simrt.Pick(st, 0, 1, 2, 3, 4, 7))
 		p.refSelectVerbatim = p.refSelect != 0 && st.Bool(1, 2)
 		p.mse = true
+		if st.Bool(1, 2) {
+			// half of these runs are plain interoperability: one of the
+			// default option sets on the storrent end, a reference peer
+			// that offers both methods and selects by default or, verbatim,
+			// a method the client offered (the other half tries everything)
+			so := simrt.Pick(st, crypto.DefaultOptions(false, false), crypto.DefaultOptions(true, false), crypto.DefaultOptions(true, true))
+			if p.serverKind == "storrent" {
+				p.sopt = so
+			} else {
+				p.copt = so
+			}
+			p.refProvide = 3
+			p.refSelect, p.refSelectVerbatim = 0, false
+			if p.serverKind == "ref" && st.Bool(1, 2) {
+				if !so.ForceEncryption && st.Bool(1, 2) {
+					p.refSelect, p.refSelectVerbatim = 1, true
+				} else if so.AllowEncryption {
+					p.refSelect, p.refSelectVerbatim = 2, true
+				}
+			}
+			simrt.Probe("interoperability-run")
+		}
 	}
 	ab := drawHsLink(st, 900)
 	ba := drawHsLink(st, 900)
